@@ -108,3 +108,5 @@ func EvRestart() *Event { return &Event{K: "restart", Name: "restart"} }
 func EvTick() *Event { return &Event{K: "tick", Name: "tick"} }
 
 func EvWindowCloses() *Event { return &Event{K: "window-closes", Name: "session-window-closes"} }
+
+func EvSecondConnect() *Event { return &Event{K: "connect2", Name: "second-connect"} }
